@@ -21,3 +21,47 @@ def all_occ(F: "bytes", N: "bytes", lo: "int", hi: "int") -> "ilist":
 @spec
 def contains(xs: "ilist", v: "int") -> "bool":
     return exists(lambda k: xs[k] == v, 0, len(xs))
+
+
+@specfn
+def ak_hdr(F: "bytes", o: "int") -> "bool":
+    """ArtifactKit self-referential header check: the little-endian dword at o equals o + 16"""
+    return 0 <= o and o + 4 <= len(F) and F[o] + 256 * F[o + 1] + 65536 * F[o + 2] + 16777216 * F[o + 3] == o + 16
+
+
+@spec
+def ak_offsets(F: "bytes", lo: "int", hi: "int") -> "ilist":
+    """ascending list of the offsets o in [lo, hi) whose header satisfies the check"""
+    if hi <= lo:
+        return []
+    return ak_offsets(F, lo, hi - 1) + ([hi - 1] if ak_hdr(F, hi - 1) else [])
+
+
+@specfn
+def ak_item_ok(F: "bytes", o: "int", rec: "record[ArtifactKitPayload]") -> "bool":
+    """the reported item carries offset, size, key, hints and the payload decoded by its 4-byte key,
+    read from the stated offsets (clamped at end of file)"""
+    return (rec.offset == o and rec.size == int.from_bytes(F[o + 4:o + 8], "little")
+            and rec.xorkey == F[o + 8:o + 12] and rec.hints == F[o + 12:o + 20]
+            and xor_post(F[o + 20:o + 20 + rec.size], rec.xorkey, rec.payload))
+
+
+def gen_ak_files():
+    """Small-scope inputs for the ArtifactKit scanner: files with valid / near-valid headers at several
+    offsets, short and truncated tails (JSON-able input descriptions for pyvc.rt_runner)."""
+    out = []
+    fill = [0, 0x11]
+    for off in (0, 1, 3):
+        for hdr_delta in (0, 1, -4):
+            for size in (0, 1, 3, 5):
+                for tail in (0, 2, 30):
+                    for trunc in (None, 6, 14, 22):
+                        body = [fill[(i * 7 + off) % 2] for i in range(off)]
+                        hdr = (off + 16 + hdr_delta).to_bytes(4, "little")
+                        rec = list(hdr) + list(size.to_bytes(4, "little")) + [1, 2, 3, 4] + list(range(0x30, 0x38)) + \
+                            [(0x41 + i) % 256 for i in range(size)]
+                        data = body + rec + [0x11] * tail
+                        if trunc is not None:
+                            data = data[:off + trunc]
+                        out.append({"file": {"bytes": data}, "pos": 0, "fkind": "bytesio"})
+    return out
